@@ -420,6 +420,9 @@ pub struct ReadRun {
 	pub meta: Option<Vec<(String, Vec<u8>)>>,
 	pub source: Option<SourceStats>,
 	pub calls: u64,
+	/// (iterator adaptors) `size_hint()` promised at least this many more items than the iterator then delivered
+	/// before it ended: std consumers (`collect`, `extend`) reserve the lower bound up front
+	pub size_hint_lie: Option<String>,
 }
 impl ReadRun {
 	pub fn values(&self) -> Vec<&Val> {
@@ -539,6 +542,10 @@ fn drive<'de, R>(
 	}
 }
 
+thread_local! {
+	static SIZE_HINT_LIE: std::cell::RefCell<Option<String>> = const { std::cell::RefCell::new(None) };
+}
+
 /// Same as `drive`, through the iterator adaptor: an iterator ends at the first `Ok(None)`; it is re-created to
 /// check that end of stream is stable
 fn drive_iter<'de, R>(
@@ -566,7 +573,20 @@ fn drive_iter<'de, R>(
 			crate::tls::with_ctx_pub(env, ty, crate::world::Target::capture(), || {
 				let mut items = vec![];
 				let mut errs = 0;
-				for item in reader.deserialize::<crate::tls::ViaTls>() {
+				let mut it = reader.deserialize::<crate::tls::ViaTls>();
+				let mut hints: Vec<(usize, usize)> = vec![];
+				loop {
+					hints.push((items.len(), it.size_hint().0));
+					let Some(item) = it.next() else {
+						// the iterator has ended: every lower bound it gave on the way must have been honoured
+						for (at, lower) in &hints {
+							if items.len() - at < *lower {
+								SIZE_HINT_LIE.with(|c| *c.borrow_mut() = Some(format!("after {at} items size_hint() promised at least {lower} more, {} followed", items.len() - at)));
+								break;
+							}
+						}
+						break;
+					};
 					if items.len() >= call_budget {
 						return (items, true);
 					}
@@ -594,6 +614,9 @@ fn drive_iter<'de, R>(
 				return;
 			}
 			Ok((items, over_budget)) => {
+				if let Some(l) = SIZE_HINT_LIE.with(|c| c.borrow_mut().take()) {
+					run.size_hint_lie = Some(l);
+				}
 				run.calls += items.len() as u64 + 1;
 				consecutive_err = items.iter().rev().take_while(|i| matches!(i, Item::Err { .. })).count();
 				run.items.extend(items);
